@@ -85,6 +85,7 @@ def run(tier):
                       'states = functions, transitions = executions per configuration')
 
 def replay(rec):
+    corpora.load_all()
     global _cfg
     if rec.get('kind') != 'diff':
         return None
